@@ -73,8 +73,11 @@ KEYS = ['_nodes_from', 'content', 'uid', '_nodes', '_postprocess_nodes', 'operat
         'scaling', 'mutation', 'crossover', 'single_add', 'single_drop', 'one_point', 'subtree', 'selection']
 for _i, _k in enumerate(KEYS):
     CONST[_k] = 'k%d_' % _i
-PRE = ('From GolemV Require Import Serial.Json.\nLocal Open Scope nat_scope.\n' +
-       '\n'.join('Definition k%d_ : string := %s.' % (i, c_str(k)) for i, k in enumerate(KEYS)))
+PRE_BASE = ('From GolemV Require Import Serial.Json.\nLocal Open Scope nat_scope.\n' +
+            '\n'.join('Definition k%d_ : string := %s.' % (i, c_str(k)) for i, k in enumerate(KEYS)) +
+            '\nDefinition jn_ (us : list json) (c : list (string * json)) (u : string) : json := '
+            'JObj [(k0_, JArr us); (k1_, JObj c); (k2_, JStr u); (CP, JStr node_path)].\n')
+GLOBAL = {}      # json.dumps(value) -> name of a Coq constant holding the value (pools of params / metadata)
 
 
 class Em:
@@ -102,6 +105,9 @@ def cs(s):
     return CONST.get(s) or c_str(s)
 
 
+NODE_KEYS = ['_nodes_from', 'content', 'uid', '_class_path']
+
+
 def c_json(v, em):
     if v is None:
         return 'JNull'
@@ -111,9 +117,18 @@ def c_json(v, em):
         return '(JNum %s)' % c_Q(v)
     if isinstance(v, str):
         return '(JStr %s)' % cs(v)
+    if isinstance(v, (list, tuple, dict)) and len(v) > 0 and GLOBAL:
+        g = GLOBAL.get(json.dumps(v))
+        if g:
+            return g
     if isinstance(v, (list, tuple)):
         return em.sh('(JArr %s)' % c_list([c_json(x, em) for x in v], 'json'))
     if isinstance(v, dict):
+        if (list(v.keys()) == NODE_KEYS and v['_class_path'] == 'golem.core.dag.linked_graph_node/LinkedGraphNode'
+                and isinstance(v['_nodes_from'], list) and isinstance(v['content'], dict) and isinstance(v['uid'], str)):
+            # abbreviation expanded by Coq (jn_ in the preamble)
+            return em.sh('(jn_ %s %s %s)' % (c_list([c_json(x, em) for x in v['_nodes_from']], 'json'),
+                                             c_kv(v['content'], em), cs(v['uid'])))
         return em.sh('(JObj %s)' % c_kv(v, em))
     raise TypeError('not a JSON-like value: %r' % (v,))
 
@@ -594,6 +609,22 @@ def ind_case(spec, h, ind_rec, o, tamper=False):
 DY = [0.0, 1.0, -1.0, 0.5, 1.5, 2.0, 0.25, -3.75, 100.0, 2.0 ** -20]
 METADATA = [None, {}, {'computation_time_in_seconds': 0.5}, {'k': [1, 2, {'a': None}], 'evaluation': {'ok': True}},
             {'note': 'x', 'n': 3}]
+
+
+def _make_pre():
+    """constants for the pooled parameter / metadata values (printed once per case file)"""
+    defs = []
+    pool = [p for p in PARAMS if p] + [m for m in METADATA if m] + [[1, 'two', {'three': 3.5}]]
+    em = Em()
+    em.sh = lambda t: t          # no sharing inside the constants
+    for i, v in enumerate(pool):
+        defs.append('Definition g%d_ : json := %s.' % (i, c_json(v, em)))
+    for i, v in enumerate(pool):
+        GLOBAL[json.dumps(v)] = 'g%d_' % i
+    return PRE_BASE + '\n'.join(defs) + '\n'
+
+
+PRE = _make_pre()
 
 
 def gen_ind_specs(ctx):
